@@ -164,6 +164,32 @@ def run(rep, tier):
             good, found = got == want, got
         rep.ob(rc, path, good, "buffer length closure of %s" % path, expected="x >= y ? x + 8 : y + 8", found=found)
 
+    # constructor: offsets stored as given, zeroed buffer of the length decided by R09.c, parent built from the program
+    rn = rep.rule("R09.n", "EbpfVmFixedMbuff::new stores the two offsets as given and a zeroed buffer of max(offsets)+8 bytes", floor=1)
+    import props.c10 as c10
+    pathn = "EbpfVmFixedMbuff::new"
+    fnn = F.fns.get(pathn)
+    okn, foundn = False, "missing"
+    if fnn:
+        evn = symex.Evaluator(F, opaque_calls=lambda q: q.endswith("EbpfVmMbuff::new"))
+        an = [evn.sym_for("a%d" % i, q["ty"]) for i, q in enumerate(fnn["thir"]["params"])]
+        outs = evn.run_fn(pathn, an) or []
+        oks = [(v, st) for v, st in outs if c10.result_kind(v) == "Ok"]
+        probs = []
+        for v, st in oks:
+            fl = c10.flat(symex.sfield(v, "0"))
+            if fl.get("mbuff.data_offset") != an[1] or fl.get("mbuff.data_end_offset") != an[2]:
+                probs.append("offsets not stored as given")
+            fe = [e for e in st.effects if e[0] == "call" and e[1] == "core::vec::from_elem" and e[3] == fl.get("mbuff.buffer")]
+            want = {T.op("add", 64, an[1], T.K(64, 8)), T.op("add", 64, an[2], T.K(64, 8))}
+            if not (len(fe) == 1 and fe[0][2][0] == T.K(8, 0) and fe[0][2][1] in want):
+                probs.append("buffer is not vec![0; offset + 8]")
+            pc = [e for e in st.effects if e[0] == "call" and isinstance(e[1], str) and e[1].endswith("EbpfVmMbuff::new")]
+            if not (len(pc) == 1 and pc[0][2][0] == an[0]):
+                probs.append("parent VM not built from the given program")
+        okn, foundn = bool(oks) and not probs, sorted(set(probs)) or "%d Ok paths" % len(oks)
+    rep.ob(rn, pathn, okn, "EbpfVmFixedMbuff::new Ok paths", expected="mbuff = { data_offset, data_end_offset, vec![0; max + 8] }, parent = EbpfVmMbuff::new(prog)", found=foundn)
+
     rd = rep.rule("R09.d", "fixed-mbuff executions store the packet start / end pointers at the configured offsets", floor=2)
     for path in ["EbpfVmFixedMbuff::execute_program"]:
         found, good = _pointer_stores(F, path)
